@@ -145,29 +145,3 @@ Proof.
   cbn [vstep fst snd vset_acct v_acct]. rewrite upd_same. reflexivity.
 Qed.
 
-(** ** non-vacuity: a concrete protocol-obeying sequence with nested, partially reverted frames *)
-Definition ex_ops : list op :=
-  [ OAddBalance 1 (to_wei 5); OSnapshot;
-      OCreateAccount 2; OSetNonce 2 1; OSubBalance 1 (to_wei 2); OAddBalance 2 (to_wei 2);
-      OSnapshot; OSetState 2 0 7; OAddRefund 4800; OAddLog 1; OSuicide 2; ORevert 1;
-      OSetState 2 1 9; OSetCode 2 3;
-    OSnapshot; OSetState 2 1 0; ORevert 2;
-    OGetState 2 1; OGetState 2 0; OGetRefund; OLogs; OGetBalance 2 ].
-
-Example ex_wf : wf_run (k_stor empty_keeper) ex_ops (ref_begin (world_of empty_keeper)).
-Proof.
-  unfold ex_ops. simpl. repeat split; try discriminate; try lia; intros; reflexivity.
-Qed.
-
-Example ex_run : snd (run_tx empty_keeper ex_ops) =
-  [[]; [0]; []; []; []; []; [1]; []; []; []; [1]; []; []; []; [2]; []; []; [9]; [0]; [0]; []; [to_wei 2]].
-Proof. vm_compute. reflexivity. Qed.
-
-Example ex_hist_wf : hist_wf empty_keeper [ex_ops; [OSnapshot; OSetState 2 1 4; ORevert 0; OGetState 2 1]].
-Proof.
-  simpl. split; [apply ex_wf|]. split.
-  - intros a x. vm_compute. repeat (destruct (a =? _)%Z; [intros [= <-]; reflexivity|]); discriminate.
-  - split; [|split; [|exact I]].
-    + vm_compute. repeat split; discriminate.
-    + intros a x. vm_compute. repeat (destruct (a =? _)%Z; [intros [= <-]; reflexivity|]); discriminate.
-Qed.
